@@ -430,6 +430,11 @@ func (s *nodeSender) SendContribution(_ context.Context, recipient *core.Endpoin
 
 // Generate asks the node's account manager (through the gRPC handler) to generate an account.
 func (n *Node) Generate(client string, account string, participants uint32, threshold uint32) (*pb.GenerateResponse, error) {
+	return n.GenerateWithPassphrase(client, account, participants, threshold, []byte(DefaultPassphrase))
+}
+
+// GenerateWithPassphrase is Generate with an explicit (possibly empty) account passphrase.
+func (n *Node) GenerateWithPassphrase(client string, account string, participants uint32, threshold uint32, passphrase []byte) (*pb.GenerateResponse, error) {
 	n.Stack.netBegin(account)
-	return n.Stack.AccMgrH.Generate(Ctx(client, "10.0.0.9"), WireRoundTrip(&pb.GenerateRequest{Account: account, Passphrase: []byte(DefaultPassphrase), Participants: participants, SigningThreshold: threshold}))
+	return n.Stack.AccMgrH.Generate(Ctx(client, "10.0.0.9"), WireRoundTrip(&pb.GenerateRequest{Account: account, Passphrase: passphrase, Participants: participants, SigningThreshold: threshold}))
 }
